@@ -119,6 +119,25 @@ def run_verus_unit(u, tier):
     res['trusted'] = scan_trusted(gen.text)
     rlimit = u.get('rlimit', 30)
     r = verus_backend.run(main_path, gen, rlimit)
+    # A function under contract may start calling a free function the unit has no contract
+    # for. Such callees are looked up in /repo and stubbed WITHOUT a contract (arbitrary
+    # result, no effect on &mut arguments assumed): whatever the caller's postcondition
+    # needs from them then fails as a named obligation instead of a type error.
+    if r.undecided and 'cannot find function' in r.undecided:
+        names = sorted(set(re.findall(r'cannot find function `(\w+)` in this scope', r.raw_stderr)))
+        stubs = []
+        for nm in names:
+            hdr = _find_free_fn_header(nm)
+            if hdr:
+                stubs.append('// auto-stub (no contract) for a callee that is not under contract: %s\n#[verifier::external_body]\npub %s { unimplemented!() }\n' % (nm, hdr))
+        if stubs and '\n} // verus!' in gen.text:
+            text2 = gen.text.replace('\n} // verus!', '\n' + '\n'.join(stubs) + '\n} // verus!', 1)
+            open(main_path, 'w').write(text2)
+            r2 = verus_backend.run(main_path, gen, rlimit)
+            if not (r2.undecided and 'does not compile' in r2.undecided):
+                r = r2
+                res['auto_stubbed_callees'] = names
+                res['trusted'] = scan_trusted(text2)
     res['cmds'] = [r.cmd]
     res['solver_s'] = r.smt_ms / 1000.0
     res['verus_total_s'] = r.total_ms / 1000.0
@@ -171,6 +190,26 @@ def run_verus_unit(u, tier):
     res['witnesses'] = u.get('witnesses', [])
     res['wall_s'] = time.time() - t0
     return res
+
+
+def _find_free_fn_header(name):
+    """signature text of a free `fn name` somewhere under /repo/crates or /repo/relay-crates"""
+    import subprocess
+    from . import extract, rewrite
+    try:
+        out = subprocess.run(['grep', '-rlE', r'fn\s+%s\b' % name, '/repo/crates', '/repo/relay-crates', '--include=*.rs'],
+                             capture_output=True, text=True).stdout.split()
+    except Exception:
+        return None
+    for path in out:
+        rel = os.path.relpath(path, '/repo')
+        try:
+            f = extract.find_fn(rel, name, None)
+        except Exception:
+            continue
+        hdr, _ = rewrite.r12_strip_comments(f.header)
+        return ' '.join(hdr.split())
+    return None
 
 
 def run_unit(u, tier):
@@ -262,6 +301,13 @@ def main():
         for (r, f) in violations:
             path, found_input = replay.write_replay(a.prop, r, f, ROOT, BUILD, REPLAY_DIR)
             replay_paths.append(path)
+            if r.get('auto_stubbed_callees') and not found_input:
+                # the failure was derived with a contract-free stub for a callee this unit
+                # does not know (%s): without a concrete failing input on the real code it
+                # may be an artefact of the over-approximation -> undecided, not an alarm
+                undecided.append('%s: %s fails only under the contract-free stub for new callee(s) %s and no witness reproduces it on the real code' % (
+                    r['unit'], f['obligation'], ', '.join(r['auto_stubbed_callees'])))
+                continue
             if f.get('spurious'):
                 undecided.append('%s: counterexample for %s did not reproduce on the real code (model artefact)' % (r['unit'], f['obligation']))
                 continue
